@@ -40,10 +40,11 @@ VF_SECTION(concurrent_pairs, 16, 16, 300) {
   r.bound = "every unordered pair (and every call with itself) of 16 serialize calls (4 values x 4 option sets) and 4 serialize->parse->compare round trips run concurrently: every schedule with <= 2 preemptions for same-kind pairs with <= 200 (thorough 500) scheduling points per call (thorough: cross pairs <= 200 too), <= 1 preemption otherwise; basic-block granularity of JSON.cc";
 }
 
-// First calls: every same-function pair (thorough: every pair) with each schedule in a freshly forked process.
+// First calls: each call with itself and with the next call of the same function (thorough: every same-function pair),
+// each schedule in a freshly forked process.
 VF_SECTION(concurrent_cold, 16, 16, 600) {
   std::vector<pp::Call> calls = make_calls();
   pp::run_pairs_cold(r, calls, r.thorough());
-  r.bound = "first calls: every same-function pair of the calls above and every call with itself (thorough: every pair), each schedule in a freshly forked process that has never called the library: every schedule with <= 1 preemption at basic-block granularity";
+  r.bound = "first calls: every call above with itself and with the next call of the same function (thorough: every same-function pair), each schedule in a freshly forked process that has never called the library: every schedule with <= 1 preemption at basic-block granularity";
 }
 VF_MAIN()
